@@ -179,6 +179,13 @@ Example C13_bootstrap_two_ipv4_networks :
   r1 = 1 /\ r2 = 1.
 Proof. vm_compute. split; reflexivity. Qed.
 
+(* re-announcing a peer that is already listed (new address, any validator verdict) is a pure
+   refresh: the entry keeps the address it was admitted under and no counter moves - so a later
+   eviction gives back exactly the slots that were taken at admission *)
+Theorem C13_refresh_changes_nothing : forall c self g id addr valid,
+  listed (g_tab g) id = true -> estep c self g (EAdd id addr valid) = (g, 0).
+Proof. intros c self g id addr valid H. cbn [estep]. rewrite H. reflexivity. Qed.
+
 (* non-vacuity: a concrete history through every branch of the pipeline *)
 Example C13_pipeline_example :
   let self := 2 ^ 255 in
